@@ -108,6 +108,6 @@ Next == TLCGet(BIG + tid) = 0 /\
          \/ DeadlockLine \/ \E t \in AllThreads : LinPut(t) \/ LinRemove(t) \/ LinGet(t))
 Spec == Init /\ [][Next]_vars
 
-Report == Progress(tid, l, Len(Tr)) /\ (l = Len(Tr) + 1 => ReportViol(tid, l, viol))
+Report == Progress(tid, l, Len(Tr), viol)
 PostCond == Post
 =============================================================================
